@@ -1,0 +1,36 @@
+//go:build verif
+
+package modify
+
+// Contracts for the verification harness under /verif (comment-only file).
+//
+// C13: the substitution filters write their result into the destination they are given
+// (RegexFilter.Apply copies into dst).  The destination is the plugin's own scratch
+// buffer, never the text of the event's node (Node.AsBytes is a view of the event's
+// decode buffer, or of the read-only literals true / false / null: writing there
+// corrupts the event or faults).  Assumed (listed): the node's text is not the
+// plugin's scratch block; a filter returns a piece of its source, of its destination,
+// or a new block.
+
+//@ func (*Plugin).Do
+//@   option allow-exit yes
+//@   ghost gnb int = 0
+//@   requires event != nil
+//@   loop 3 invariant 0 <= i && (ref(p.fieldBuf) != gnb || gnb == 0)
+//@   assume-safe "op.Data[0]" raw substitution ops carry exactly one data element (built by the substitution parser)
+//@   callee Dig(path) (n)
+//@     pure
+//@   callee AsBytes() (r)
+//@     pure
+//@     ensures ref(r) != ref(p.fieldBuf) && ref(r) != 0
+//@     set gnb := ref(r)
+//@   callee Apply(src, dst) (r)
+//@     requires ref(dst) != gnb
+//@     pure
+//@     ensures ref(r) == ref(src) || ref(r) == ref(dst) || fresh(r)
+//@   callee CreateNestedField(root, path) (n)
+//@     pure
+//@   callee MutateToBytesCopy(root, b) (n)
+//@     pure
+//@   callee Int(k, v) (f)
+//@     pure
